@@ -73,7 +73,7 @@ type mfObs struct {
 	Queries []mfQuery   `json:"queries,omitempty"`
 }
 
-var goodDirs = []string{"a1", "a1x", "pkg", "pkg2", "pkg-0", "9f86d081884c7d65", "x_y", "UPPER", "with space", "a.b", "...", "a\\b"}
+var goodDirs = []string{"a1", "a1x", "A1", "pkg", "Pkg", "pkg2", "pkg-0", "upper", "9f86d081884c7d65", "x_y", "UPPER", "with space", "a.b", "...", "a\\b"}
 var badDirs = []string{"", ".", "..", "a/b", "/abs", "a/..", "x/", "../up", "a//b", "./a", "a/./b"}
 
 func genPkgOnly(rng *Rng) string {
@@ -383,6 +383,8 @@ func runManifest(o *Opts) {
 				for _, e := range ob.Pkgs {
 					real := root + e[1][len("/bundle"):]
 					paths = append(paths, real, real+"/"+rng.Pick([]string{"main.tf", "modules/vpc", "a/../b", "./x//y/"}))
+					// the directory name in another letter case is a different (possibly absent) directory
+					paths = append(paths, filepath.Join(filepath.Dir(real), swapCase(filepath.Base(real)), "main.tf"))
 					// a sibling whose name merely starts with the directory name
 					paths = append(paths, real+rng.Pick([]string{"s/main.tf", "x", "2/a/b", "-other/y"}))
 				}
@@ -512,4 +514,17 @@ func coqOptStr(ok bool, s string) string {
 		return "None"
 	}
 	return "(Some " + coqStr(s) + ")"
+}
+
+func swapCase(s string) string {
+	b := []byte(s)
+	for i, c := range b {
+		switch {
+		case 'a' <= c && c <= 'z':
+			b[i] = c - 32
+		case 'A' <= c && c <= 'Z':
+			b[i] = c + 32
+		}
+	}
+	return string(b)
 }
